@@ -125,10 +125,14 @@ fn range_step_backwards(
         Some(stop) if stop < 0 => (end as i64 + stop).max(0) as usize,
         Some(stop) => stop as usize,
     };
-    let length = if stop == 0 {
+    let length = if end == 0 {
+        // nothing to index into
+        0
+    } else if stop == 0 {
         (start + step) / step
     } else {
-        (start - stop + step - 1) / step
+        // `start` below `stop` selects nothing
+        (start.saturating_sub(stop) + step - 1) / step
     };
     (stop..=start).rev().step_by(step).take(length)
 }
@@ -178,7 +182,7 @@ pub fn slice(value: Value, start: Value, stop: Value, step: Value) -> Result<Val
             } else {
                 let chars: Vec<char> = s.chars().collect();
                 Ok(Value::from(
-                    range_step_backwards(start, stop, -step as usize, chars.len())
+                    range_step_backwards(start, stop, step.unsigned_abs() as usize, chars.len())
                         .map(move |i| chars[i])
                         .collect::<String>(),
                 ))
@@ -197,7 +201,7 @@ pub fn slice(value: Value, start: Value, stop: Value, step: Value) -> Result<Val
                 ))
             } else {
                 Ok(Value::from_bytes(
-                    range_step_backwards(start, stop, -step as usize, b.len())
+                    range_step_backwards(start, stop, step.unsigned_abs() as usize, b.len())
                         .map(|i| b[i])
                         .collect::<Vec<u8>>(),
                 ))
@@ -219,7 +223,7 @@ pub fn slice(value: Value, start: Value, stop: Value, step: Value) -> Result<Val
                         .step_by(step as usize)
                         .collect()
                 } else {
-                    range_step_backwards(start, stop, -step as usize, values.len())
+                    range_step_backwards(start, stop, step.unsigned_abs() as usize, values.len())
                         .map(|idx| values[idx].clone())
                         .collect()
                 };
@@ -241,7 +245,7 @@ pub fn slice(value: Value, start: Value, stop: Value, step: Value) -> Result<Val
                     if let Some(iter) = obj.try_iter() {
                         let vec: Vec<Value> = iter.collect();
                         Box::new(
-                            range_step_backwards(start, stop, -step as usize, vec.len())
+                            range_step_backwards(start, stop, step.unsigned_abs() as usize, vec.len())
                                 .map(move |i| vec[i].clone()),
                         )
                     } else {
